@@ -97,6 +97,9 @@ def run(ck):
     # ... and the scan that finds the existing indices reads exactly the names the writer produces: if the two split the active
     # file's name differently (svc.err.log), no existing file is ever seen and index 1 is handed out again and again
     name_scheme(ck, S, "C05-O6")
+    # ... over a listing that leaves no rotated file out (anchored, escaped pattern; plain and .gz; hidden files included)
+    from rules.c06 import name_pattern
+    name_pattern(ck, S, S.m["findNextIndexForDate"], "C05-O6", date_is_class=False)
     ck.rule("C05-O7", "rotation order = name order: with daily rotation every file is dated with the day of the records written to it on every path before the write (a size rotation must not leave the new file dated by the clock), so reading by (date, index) is reading in write order")
     daily(ck, S, RP + "::m_currentLogDate", "C05-O7")
     ck.rule("C05-O8", "compression copies bytes: the rotated file is read and the .gz written in binary mode (a Text-mode read drops every CR)")
